@@ -787,7 +787,7 @@ def text_cases(ctx) -> list:
             ctx.nontrivial(('text', s))
     for s in CORPUS_TEXTS:
         add_text(s, tag='corpus')
-    n_valid = ctx.budget(500, 6000)
+    n_valid = ctx.budget(500, 12000)
     for i in range(n_valid):
         kw = {'dyadic': rng.random() < 0.3, 'exotic': rng.choice([0, 0, 0, 0.1, 1.0]),
               'max_digits': rng.choice([3, 6, 6, 20, 45])}
@@ -957,7 +957,14 @@ EXPORT_TARGETS = [
 def command_cases(ctx) -> list:
     rng = ctx.rng
     cases = []
-    n_rounds = ctx.budget(1, 6)
+    # corpus: the command-level face of finding F6 — on a 4 x 4 grid the fraction of the fourth number decides
+    # whether the row at latitude 3 is kept
+    corpus_rec = {'ds': {'conv': 'cf1d', 'lat': [0, 1, 2, 3], 'lon': [0, 1, 2, 3], 'bounds': 'none', 'coords_as': 'coords',
+                         'vars': [{'name': 'v', 'kind': 'face', 'extra': [], 'base': 100, 'dtype': 'f8'}],
+                         'sizes_extra': {}}, 'timecoord': False}
+    cases.append({'k': 'cmd', 'cmd': 'clip', 'recipe': corpus_rec, 'bounds': [0.6, 0.6, 2.4, 2.6],
+                  'bounds_text': '0.6,0.6,2.4,2.6', 'geom_how': 'bounds'})
+    n_rounds = ctx.budget(2, 12)
     for rnd in range(n_rounds):
         for conv in G.CONVS:
             # ---- clip ------------------------------------------------------------
@@ -1094,7 +1101,7 @@ def run(ctx) -> None:
 
 class Flagging:
     """ctx proxy that counts what the direct oracle reports (known findings included)"""
-    PER_SIGNATURE = 5000        # keep room for every distinct kind of failure in the replay file
+    PER_SIGNATURE = 5        # keep room for every distinct kind of failure in the replay file
 
     def __init__(self, ctx):
         self.ctx, self.flags, self.by_sig = ctx, 0, {}
